@@ -91,7 +91,18 @@ def draw_and_judge(res, c, label, order, labels, compact, cfgname):
                 return None
         world.close_figures()
         if (list(kw.get('channel_order', [])), dict(kw.get('channel_map', {}))) != given:
-            res.fail('C18-arguments-changed', '%s: plot_circuit changed the channel order / label map it was given: %r -> %r' % (label, given, (kw.get('channel_order'), kw.get('channel_map'))))
+            # the drawing changed the order / map objects it was given: a user who reuses them (here: for the circuit's first
+            # operation alone, which occupies a subset of the channels) must still get a drawing - "every valid channel order"
+            first = type(c)()
+            first.add(c.operations[0].copy()) if c.operations else None
+            occ_first = occupied(first)
+            if all(q in occ_first for q in given[0]):
+                try:
+                    dc.plot_circuit(first, **kw)
+                except Exception as e:
+                    res.fail('C18-arguments-changed', '%s: plot_circuit changed the channel order / label map it was given (%r -> %r); reusing them for a '
+                             'circuit on channels %r, for which the original order is valid, raises %s' % (label, given, (kw.get('channel_order'), kw.get('channel_map')), occ_first, type(e).__name__))
+                world.close_figures()
         after = snapshot(c)
         if before != after:
             diff = [k for k in before if before[k] != after[k]]
